@@ -726,7 +726,8 @@ RULE_ADDENDA = {
     "C10": " ; every real with precision <= 2 (one in four otherwise; one in 32 inside the enumerations) is printed again into a stream that had held 420 '9's and 420 units of another digit and was cleared (stale storage behind the content)"
            " ; stream prefixes also end in '-', 'e', '.', a digit ('3-', '1e', '0.', '1.9'); enumerated 'big-ties': 16-23 digit integers ending in 5 and zeros (decimal ties from 2^53 up) and their neighbours one and two ulps away at the tie's precision, 2 M per shard in quick, 100 M in thorough",
     "C08": " ; one case in three (alias=2) has an Undefined value and a pointer to it among the pointer targets; enumerated: arrays of two strings of 0.7..16 Mi units (6 pairs of lengths x escape/none x 3 widths), text compared unit for unit and parsed back"
-           " ; alias=2 replaces half of the table reals by short decimals from 1e17 up (2e22, 1.7e22, 1.2345678901234e17 ...)",
+           " ; alias=2 replaces half of the table reals by short decimals from 1e17 up (2e22, 1.7e22, 1.2345678901234e17 ...)"
+           " ; alias=2 draws object keys from equal-hash pairs (ti / t, pear / year, la / l, mb / m)",
     "C05": " ; enumerated through the all-or-nothing harness: texts nested 250..2000 levels (22 depths x 4 shapes) - every sampled proper prefix, trailing units and 14 malformed cores at the deepest level are rejected whole",
     "C01": "; two cases in three build the value with aimed extras (a member holding the template's own tail plus one unit, a storage-less string, a short string "
            "next to one that continues with NULs) and one template in twelve of those is an 'aimed comparison'; boundary classes: 250-261 <if> levels around "
@@ -748,15 +749,18 @@ RULE_ADDENDA = {
     "C06": "; enumerated: strings of 255 .. 1,048,577 units with an escape at the start / middle / end / nowhere, as array element, member value and member key, "
            "3 widths (468 documents), decoded content compared unit for unit; one case in three draws strings with look-alike code points (U+0100|c: one UTF-16/32 unit whose low byte is a quote, backslash, bracket, control ...) and "
            "numerals thousands of characters long whose exponent compensates their own zeros, or 17-digit spellings of doubles from the least-slack binades"
-           " ; half of the cases parse a rejected text (8 shapes with a broken string after an escape) with one caller-owned scratch stream first, then the document twice with the same stream",
+           " ; half of the cases parse a rejected text (8 shapes with a broken string after an escape) with one caller-owned scratch stream first, then the document twice with the same stream"
+           " ; one case in three (alias=2) draws member names from equal-hash pairs (ti / t, pear / year, la / l, mb / m)",
     "C07": "; one case in three draws look-alike code points and unpaired low-surrogate escapes (legal by the grammar) into the strings"
-           " ; per document: one of its strings as the whole text and every proper prefix of it; up to three \\u escapes with one digit replaced by a non-hex unit, and cut short after 0-3 digits followed by the string's end, filler and the rest of the text again; six times the first half of a surrogate pair in front of a closing quote followed by text that makes the whole invalid without the escape (reference parser decides); enumerated: texts nested 250..2000 levels (see C05)",
+           " ; per document: one of its strings as the whole text and every proper prefix of it; up to three \\u escapes with one digit replaced by a non-hex unit, and cut short after 0-3 digits followed by the string's end, filler and the rest of the text again; six times the first half of a surrogate pair in front of a closing quote followed by text that makes the whole invalid without the escape (reference parser decides); enumerated: texts nested 250..2000 levels (see C05)"
+           " ; (alias=2: member names from equal-hash pairs)",
     "C09": "; near-tie class (midpoints between adjacent doubles cut to 17-21 digits, just below and just above), numerals whose exponent compensates their length "
            "(up to 100,000 zeros), terminators that are non-ASCII units with an ASCII low byte in the 2- and 4-byte runs",
     "C12": "; the marker hunt of C13 (member names whose hash equals the removed-slot marker) runs here as well, since an object is a hash array; two cases in three also merge sized-but-empty temporaries (+= / Merge, copy / move) and assign a container from one of its own descendants (copy / move)"
            " ; half of the cases (gen2=2) also build reserved arrays (room 3..11) whose elements - some of them arrays that lose an element - are written into the room and are then mostly compressed, and append one of an object's own members to the object (copy and move); the quick tier also runs a build without the growth hook",
     "C13": "; two cases in three let Insert(key, const Value &) take its value from an entry of the same table"
-           " ; half of the cases (gen2=2) add to the full-hash theme a stem of 64 / 96 / 128 units and its one-unit variants at the outer positions whose hash is confirmed equal",
+           " ; half of the cases (gen2=2) add to the full-hash theme a stem of 64 / 96 / 128 units and its one-unit variants at the outer positions whose hash is confirmed equal"
+           " ; gen2=2 adds t / ti, l / la, m / mb, year / pear to the small-key theme",
     "C14": "; two cases in three append copies of own elements (a += a[i], Insert(a[i])) and compare long near-equal operands (16-75 units, one differing unit anywhere) "
            "and views sharing their start, with the ordering operators against a lexicographic model"
            " ; twice per case (1 in 8 of the gen2 cases) a StringStream gets a range from a buffer mapped k*2^32 units (+ less than its length) away from its own block while it has to grow, and a String is assigned / appended from its own tail as a C string; the quick tier also runs a sanitizer-free build"
